@@ -271,10 +271,18 @@ class Interp:
             elif op == "mul": r = A * B
             elif op == "sdiv": r = z3.If(B > 0, z3.If(A >= 0, A / B, -((-A) / B)), z3.If(A >= 0, -(A / (-B)), (-A) / (-B)))
             elif op == "srem": r = A - B * z3.If(B > 0, z3.If(A >= 0, A / B, -((-A) / B)), z3.If(A >= 0, -(A / (-B)), (-A) / (-B)))
+            elif op == "shl" and not is_sym(b): r = A * (1 << b)
+            elif op == "ashr" and not is_sym(b): r = A / (1 << b)                       # floor division (z3 div with a positive divisor)
+            elif op == "lshr" and not is_sym(b): r = s.uns(A, bits) / (1 << b)
+            elif op == "udiv" and not is_sym(b) and b > 0: r = s.uns(A, bits) / b
+            elif op == "urem" and not is_sym(b) and b > 0: r = s.uns(A, bits) % b
+            elif op == "and" and not is_sym(b) and b >= 0 and (b & (b + 1)) == 0: r = s.uns(A, bits) % (b + 1)
             else: raise NotImplementedError(op + " symbolic")
+            lim = 1 << (bits - 1)
             if "nsw" in flags:
-                lim = 1 << (bits - 1)
                 if s.ex.feasible([z3.Or(r >= lim, r < -lim)]): s.report("signed-overflow", op, ins)
+            elif op in ("add", "sub", "mul", "shl") and s.ex.feasible([z3.Or(r >= lim, r < -lim)]):
+                r = ((r + lim) % (1 << bits)) - lim          # modular (unsigned / wrapping) arithmetic, kept in its signed reading
             return r
         if op == "add": r = a + b
         elif op == "sub": r = a - b
@@ -329,8 +337,14 @@ class Interp:
             s.ex.pc.append(B != 0)
             return A / B
         raise NotImplementedError(op)
-    def cmp(s, pred, a, b, ins, isf):
+    def uns(s, x, bits):
+        """unsigned reading of a value kept in its signed reading"""
+        if is_sym(x): return z3.If(x < 0, x + (1 << bits), x)
+        return x % (1 << bits)
+    def cmp(s, pred, a, b, ins, isf, bits=32):
         a = s.use(a, ins); b = s.use(b, ins)
+        if (not isf) and pred[0] == "u" and pred not in ("une", "ueq") and not isinstance(a, (Ptr, bool)) and not isinstance(b, (Ptr, bool)):
+            a, b = s.uns(a, bits), s.uns(b, bits)
         if isinstance(a, Ptr) or isinstance(b, Ptr):
             same = (a.obj is b.obj) and (a.off == b.off)
             return same if pred == "eq" else not same
@@ -529,7 +543,7 @@ class Interp:
                     if op == "icmp" and m.group(1)[0] == "u" and not isinstance(a, Ptr):
                         # unsigned compare on non-negative values only (checked)
                         pass
-                    env[ins.res] = s.cmp(m.group(1), a, b, ins, op == "fcmp")
+                    env[ins.res] = s.cmp(m.group(1), a, b, ins, op == "fcmp", int(ty[1:]) if isinstance(ty, str) and ty[0] == "i" else 64)
                 elif op in ("sext", "zext", "trunc", "bitcast", "fpext", "fptrunc", "sitofp", "uitofp", "fptosi", "fptoui", "ptrtoint", "inttoptr"):
                     m = re.match(r"\w+ (.*) to (.*)", t); ty, a = s.typed(env, m.group(1)); to = parse_type(m.group(2))[0]
                     a = s.use(a, ins) if op != "bitcast" else a
@@ -555,12 +569,19 @@ class Interp:
                             if bits > 1 and r >= 1 << (bits - 1): r -= 1 << bits
                             if bits == 1: r = bool(r)
                     elif op in ("sitofp", "uitofp"):
+                        if op == "uitofp": a = s.uns(a, int(ty[1:]))
                         r = Fraction(a) if not is_sym(a) else z3.ToReal(a)
                     elif op in ("fptosi", "fptoui"):
+                        bits = int(to[1:]); lo_, hi_ = (-(1 << (bits - 1)), (1 << (bits - 1))) if op == "fptosi" else (0, 1 << bits)
                         if is_sym(a):
                             r = z3.If(a >= 0, z3.ToInt(a), -z3.ToInt(-a))
+                            if s.ex.feasible([z3.Or(r < lo_, r >= hi_)]):
+                                s.report("float-to-int-out-of-range", "%s to i%d" % (op, bits), ins); s.ex.pc.append(z3.And(r >= lo_, r < hi_))
                         else:
-                                            r = math.trunc(a)
+                            r = math.trunc(a)
+                            if not lo_ <= r < hi_: s.report("float-to-int-out-of-range", "%s %s to i%d" % (op, float(a), bits), ins); raise PathEnd("fp-range")
+                        if op == "fptoui" and not is_sym(r) and r >= 1 << (bits - 1): r -= 1 << bits
+                        elif op == "fptoui" and is_sym(r): r = z3.If(r >= (1 << (bits - 1)), r - (1 << bits), r)
                     else: raise NotImplementedError(op)
                     env[ins.res] = r
                 elif op == "select":
